@@ -10,7 +10,7 @@ case "$PATCH" in
   *.py) (cd "$D/repo" && /venv/bin/python "$PATCH") || { echo "mutation script failed"; rm -rf "$D"; exit 3; } ;;
   *) (cd "$D/repo" && patch -p1 -s < "$PATCH") || { echo "patch failed"; rm -rf "$D"; exit 3; } ;;
 esac
-VERIF_REPO="$D/repo" /verif/check "$CHECK" --no-evidence "$@"
+VERIF_REPO="$D/repo" "$(cd "$(dirname "$0")/.." && pwd)/check" "$CHECK" --no-evidence "$@"
 RC=$?
 rm -rf "$D"
 exit $RC
